@@ -422,6 +422,11 @@ func (ex *Exec) verifCall(fn *ssa.Function, args []Value, fr *Frame) Value {
 			return ex.i64(0)
 		}
 		return ex.i64(int64(len(a.Arr.Val.(ArrayV))))
+	case "verifFreezeWhenStored":
+		// verifFreezeWhenStored(&cell): an object whose address is stored into the cell becomes read-only
+		p := args[0].(*IfaceV).Val.(*Pointer)
+		ex.watchPublish[fmt.Sprintf("%d%s", p.Obj.ID, pathKey(p.Path))] = true
+		return nil
 	case "verifFreezeMap":
 		switch m := args[0].(type) {
 		case *MapV:
